@@ -1326,6 +1326,17 @@ func genC18(g *G, sc *Scenario, tier string) {
 		} else {
 			deps = append([]any{d2}, deps...)
 		}
+		if g.P(0.25) {
+			// a symmetric predicate: the same dependency declared in the other direction as well (dep2 entities point at
+			// main entities and main entities at dep2 entities through one predicate)
+			d3 := map[string]any{"dataset": "dep2", "joins": []any{map[string]any{"dataset": "main", "predicate": "PLACEHOLDERk", "_pred": pred, "inverse": !inv}}}
+			if inv {
+				edges = append(edges, edge{from: "dep2", to: "main", pred: pred})
+			} else {
+				edges = append(edges, edge{from: "main", to: "dep2", pred: pred})
+			}
+			deps = append(deps, d3)
+		}
 		writable = append(writable, "dep2")
 		endpoints = append(endpoints, "dep2", "dep2")
 	}
